@@ -46,7 +46,7 @@ WORKER_RESTRS = {
     "cluster2.net9": {"vm1": "only CentOS\n", "vm2": "no Win10\n"},
 }
 NETS = ["net1", "net1 net2", "net0", "net1 net5", "net3 net4 net5", "cluster1.net6 cluster1.net7",
-        "net1 cluster2.net9", "net2"]
+        "net1 cluster2.net9", "net2", "net5 net1", "net1 net5 net2", "cluster2.net9 net1 net3"]
 
 
 @st.composite
@@ -230,6 +230,7 @@ def body_factory(ctx):
 
 
 REGRESSIONS = [
+    {"chain": ["boot", "check", "shutdown"], "vms": ["vm2", "vm3"], "restrs": {"vm2": "Win7"}, "nets": "net1 net5 net2"},
     {"chain": ["check", "boot"], "vms": ["vm1", "vm2"], "restrs": {}, "nets": "net1 net2"},
     {"chain": ["create", "set"], "vms": ["vm1"], "restrs": {}, "nets": "net1", "extra": {"set_state_images": "mystate"}},
     {"chain": ["get", "unset", "shutdown"], "vms": ["vm2", "vm3"], "restrs": {"vm2": "Win7", "vm3": ""}, "nets": "net1 net5",
